@@ -1,4 +1,5 @@
 import Autog.Model.Phase1
+import Autog.Lemmas.DfsBreakerTotal
 /-! # C14 — depth-first cycle breaking reverses an irredundant edge set; acyclic inputs keep every edge
 
     Theorems about the model `dfsMarked` / `execDepthFirst` and `hasCycles` (Autog/Model/Phase1.lean; key `T:phase1`).
@@ -85,6 +86,16 @@ theorem C14_dfs_minimal (g : G) (src : Nat → Nat) (hU : Uniq (outE g) src) (ma
     obtain ⟨w, hw, rfl⟩ := hI.wcov id hid'
     obtain ⟨_, h2, h3, h4⟩ := hI.wok w hw
     exact ⟨w.2.1, w.2.2.1, w.2.2.2, h2, h3, fun x hx hm => (h4 x hx).2 (List.mem_reverse.1 hm)⟩
+
+/-- the breaker always returns its marked set (never out of fuel), cyclic input or not -/
+theorem C14_dfs_total : type_of% @dfsMarked_total := @dfsMarked_total
+
+/-- together: on every well-formed state with unique edge ids there IS a marked set and it is irredundant -/
+theorem C14_dfs_minimal_exists (g : G) (hwf : EdgesWF g) (src : Nat → Nat) (hU : Uniq (outE g) src) :
+    ∃ marked, dfsMarked g = .ok marked ∧
+      ∀ id ∈ marked, ∃ u v path, (id, v) ∈ outE g u ∧ IsWalkE (outE g) v path u ∧ ∀ x ∈ pathIds path, x ∉ marked := by
+  obtain ⟨marked, h⟩ := dfsMarked_total g hwf
+  exact ⟨marked, h, C14_dfs_minimal g src hU marked h⟩
 
 /-- C14 (second half): "cycle" is only answered when a closed walk exists -/
 theorem C14_cycle_answer_sound : type_of% @DfsHasCyclesSound.run_cyc := @DfsHasCyclesSound.run_cyc
